@@ -32,4 +32,19 @@ SEEDS = [
   "edits": [e("filesystem/squashfs/squashfs.go", "	b = make([]byte, idBlocks*8)", "	b = make([]byte, uint64(idBytes)*8+uint64(idBlocks-idBlocks))")]},
  {"name": "c18-squashfs-inode-blocklist-by-division", "properties": ["C18"], "expect": "C18-b|",
   "edits": [e("filesystem/squashfs/inode.go", "	blockListSize := int(d.fileSize / uint32(blocksize))", "	blockListSize := int(d.fileSize / (uint32(blocksize) - d.fragmentOffset))")]},
+ # C18-e: device-derived indexes
+ {"name": "c18-squashfs-id-index-unchecked", "properties": ["C18"], "expect": "C18-e|",
+  "edits": [e("filesystem/squashfs/squashfs.go", "	if int(header.uidIdx) >= len(fs.uidsGids) || int(header.gidIdx) >= len(fs.uidsGids) {", "	if int(header.uidIdx) >= len(fs.uidsGids) {")]},
+ {"name": "c18-ext4-inode-group-unchecked", "properties": ["C18"], "expect": "C18-e|",
+  "edits": [e("filesystem/ext4/ext4.go", "	if int64(bg) >= int64(len(fs.groupDescriptors.descriptors)) {", "	if int64(bg) > int64(len(fs.groupDescriptors.descriptors))+int64(inodeNumber) {")]},
+ {"name": "c18-fat-read-size-beyond-chain", "properties": ["C18"], "expect": "C18-e|",
+  "edits": [e("filesystem/fat12/file.go", "		if clusterIndex >= len(clusters) {", "		if clusterIndex >= len(clusters) && len(b) == 0 {")]},
+ {"name": "c18-squashfs-fragment-index-unchecked", "properties": ["C18"], "expect": "C18-e|",
+  "edits": [e("filesystem/squashfs/squashfs.go", "	if len(fs.fragments)-1 < int(index) {", "	if len(fs.fragments) == 0 {")]},
+ # behaviour-preserving: the same bound written the other way round must stay silent
+ {"name": "c18-squashfs-fragment-index-check-rewritten", "properties": ["C18"], "silent": True, "expect": "",
+  "edits": [e("filesystem/squashfs/squashfs.go", "	if len(fs.fragments)-1 < int(index) {", "	if int(index) >= len(fs.fragments) {")]},
+ {"name": "c18-ext4-extent-children-counted", "properties": ["C18"], "expect": "C18-e|",
+  "edits": [e("filesystem/ext4/extent.go", "			if i > 0 {\n				internalNode.children[i-1].count", "			if i > 0 && ptr.fileBlock != 0 {\n				internalNode.children[i-1].count"),
+            e("filesystem/ext4/extent.go", "			internalNode.children = append(internalNode.children, ptr)\n", "			if ptr.diskBlock != 0 {\n				internalNode.children = append(internalNode.children, ptr)\n			}\n")]},
 ]
